@@ -397,6 +397,7 @@ func TestVerifLedger(t *testing.T) {
 	defer w.close()
 	rng := rand.New(rand.NewSource(seed*32452843 + 13))
 	nblocks := 0
+	defer recordGenFailure(w, func() { fmt.Printf("VERIF-STAT trees=%d blocks=%d events=%d\n", nTrees, nblocks, w.n) })
 	rich := vcontent{txProb: 0.95, maxTx: 6, uncleProb: 0.35, offsets: []int64{-200, 0, 0, 100}, replay: 0.1}
 	for _, cfg := range []string{"steep", "test"} {
 		tr := buildLedgerSpecial(rng, "ledger-special-"+cfg, cfg)
